@@ -1,5 +1,5 @@
 (* Property C11 — skipif / onlyif decide execution exactly by label membership.  Statements only. *)
-From SLT Require Import Runner RunnerProofs.
+From SLT Require Import Runner RunnerProofs RunnerBackground.
 
 (* executed <=> every guard admits the label set (runner labels, plus the engine name
    for statements/queries when it is non-empty; never for system records) *)
@@ -64,3 +64,18 @@ Theorem C11_admitted_statement_runs :
                  find_conn c (conns st1) = Some id /\ calls w2 = (calls w1 + 1)%N /\ quiet ev.
 Proof. exact executed_statement. Qed.
 Print Assumptions C11_admitted_statement_runs.
+
+(* an admitted system record runs exactly once: either through the run_command hook (one scripted
+   shell answer consumed) or, when its command ends in '&', as ONE background spawn that consumes
+   nothing; a skipped one - background or not - does neither (C11_skipped_system_is_silent) *)
+Theorem C11_admitted_system_runs_once :
+  forall substitute sc st w l cs cmd ex r cmd',
+    should_skip (labels st) [] cs = false ->
+    may_substitute substitute st false cmd = SubOk cmd' ->
+    (is_background cmd' = false /\
+     exists a w', apply_record substitute sc st w (RSystem l cs cmd ex r) = ([ECmd cmd'], st, w', apply_system ex a)
+                  /\ sys_calls w' = (sys_calls w + 1)%N /\ calls w' = calls w) \/
+    (is_background cmd' = true /\
+     apply_record substitute sc st w (RSystem l cs cmd ex r) = ([EBackground (background_cmd cmd')], st, w, OSystem None false)).
+Proof. exact system_runs_once. Qed.
+Print Assumptions C11_admitted_system_runs_once.
